@@ -115,6 +115,12 @@ def generate(seed: int, tier: str = "quick") -> dict:
         else:
             add(b, ph, "aave.read", {"view": rp.choice(["health_factor", "max_ltv", "liquidation_threshold"])})
         faults.append({"kind": "same_bar:borrow_repay_with_collateral_" + follow, "bar": b})
+    rs_ = R.sub(seed, "stress")
+    for _ in range(rs_.choice([0, 0, 0, 1, 2])):
+        # what-if read: this bar's status handed to the market again with another price vector, figures read, prices put back
+        fs = {t: rs_.choice(["0.5", "0.8", "0.97", "1.1", "2"]) for t in rs_.sample(toks, rs_.randint(1, len(toks)))}
+        add(rs_.randint(first, nb - 1), rs_.choice([1, 3, 3, 4]), "aave.stress_read", {"factors": fs})
+        faults.append({"kind": "status_of_the_bar_set_again_with_other_prices"})
     program = [p for _, p in sorted(enumerate(program), key=lambda e: (e[1]["bar"], PHASES.index(e[1]["phase"]), e[0]))]
     by = A.add_bystander(R.sub(seed, "bystander"), world)
     if by is not None:
@@ -195,6 +201,27 @@ class FrontierOracle(Oracle):
                 sim.count("probe:helper_borrow_read")
             elif view in ("health_factor", "max_ltv", "liquidation_threshold"):
                 self._figures(sim, f"read:{view}")
+            return
+        if kind == "stress_read":
+            if ok:
+                got = outcome["result"]
+                ref.stress = {k: F(v) for k, v in call["factors"].items()}
+                try:
+                    hf = ref.hf(st0, bar)
+                    g = got["health_factor"]
+                    if hf is None:
+                        if g != Decimal("inf"):
+                            sim.violate("c11.figure", "stress_read:health_factor:no_debt_not_inf", got=str(g))
+                    elif not g.is_finite() or not RA.close(F(g), hf, FIG_TOL):
+                        sim.violate("c11.figure", "stress_read:health_factor", got=str(g), want=fstr(hf), factors=call["factors"])
+                    if ref.total_coll(st0, bar) > 0:
+                        for name, want in (("max_ltv", ref.max_ltv(st0, bar)), ("liquidation_threshold", ref.lt_weighted(st0, bar))):
+                            if not got[name].is_finite() or not RA.close(F(got[name]), want, FIG_TOL):
+                                sim.violate("c11.figure", f"stress_read:{name}", got=str(got[name]), want=fstr(want), factors=call["factors"])
+                        sim.count("probe:stressed_figures_checked_with_collateral")
+                finally:
+                    ref.stress = None
+            self._figures(sim, "stress_read:prices_put_back")
             return
         if kind not in ("borrow", "withdraw", "change_collateral"):
             self._figures(sim, kind)
